@@ -281,10 +281,11 @@ type stressCfg struct {
 	consumers      int
 	reportsPerProd int
 	procs          int
+	fetchLimit     int // fetches per consumer (0 = loop for ever)
 }
 
 func (c stressCfg) line() string {
-	return fmt.Sprintf("c40stress\t%d\t%d\t%d\t%d\t%d\t%d", c.seed, c.idx, c.producers, c.consumers, c.reportsPerProd, c.procs)
+	return fmt.Sprintf("c40stress\t%d\t%d\t%d\t%d\t%d\t%d\t%d", c.seed, c.idx, c.producers, c.consumers, c.reportsPerProd, c.procs, c.fetchLimit)
 }
 
 func jitter(r *vh.Rand) {
@@ -311,6 +312,10 @@ func runStress(cfg stressCfg) (hist []hop, er string, fail string, detail string
 	add := func(h hop) { mu.Lock(); log = append(log, h); mu.Unlock() }
 	resnap = func() []hop { return snapshot(&mu, &log) }
 	var inFetch int64 // consumers currently between "before Fetch" and "logged"
+	running := int64(cfg.consumers)
+	if !havePeek {
+		cfg.fetchLimit = 0 // without a view of the pending set only looping consumers can be judged
+	}
 	var wg sync.WaitGroup
 	for p := 0; p < cfg.producers; p++ {
 		pr := r.Fork(1000 + p)
@@ -330,7 +335,8 @@ func runStress(cfg stressCfg) (hist []hop, er string, fail string, detail string
 		cr := r.Fork(2000 + k)
 		fp := cr.Chance(30)
 		go func() {
-			for {
+			defer atomic.AddInt64(&running, -1)
+			for n := 0; cfg.fetchLimit == 0 || n < cfg.fetchLimit; n++ {
 				jitter(cr)
 				atomic.AddInt64(&inFetch, 1)
 				inv := tick()
@@ -352,13 +358,19 @@ func runStress(cfg stressCfg) (hist []hop, er string, fail string, detail string
 	case <-time.After(10 * time.Second):
 		return snapshot(&mu, &log), er, "report-hang", "FileChanged calls did not return within 10s", resnap
 	}
-	if cfg.consumers == 0 {
-		// drain from here: one Fetch per distinct directory reported
-		ref := map[string]bool{}
-		for _, o := range snapshot(&mu, &log) {
-			ref[o.dir] = true
+	drain := func() ([]hop, string, string, string, func() []hop) {
+		// the main goroutine fetches what is still pending
+		n := 0
+		if havePeek {
+			n = pk.len()
+		} else {
+			ref := map[string]bool{}
+			for _, o := range snapshot(&mu, &log) {
+				ref[o.dir] = true
+			}
+			n = len(ref)
 		}
-		for i := len(ref); i > 0; i-- {
+		for i := n; i > 0; i-- {
 			inv := tick()
 			d, ok := fetchTimeout(c, false, 3*time.Second)
 			if !ok {
@@ -367,22 +379,29 @@ func runStress(cfg stressCfg) (hist []hop, er string, fail string, detail string
 			add(hop{fetch: true, arg: d, dir: d, inv: inv, ret: tick()})
 		}
 		if havePeek && pk.len() != 0 {
-			return snapshot(&mu, &log), er, "pending-count", fmt.Sprintf("len(changed)=%d after fetching every reported directory", pk.len()), resnap
+			return snapshot(&mu, &log), er, "pending-count", fmt.Sprintf("len(changed)=%d after fetching every pending directory", pk.len()), resnap
 		}
 		return snapshot(&mu, &log), er, "", "", resnap
 	}
-	// consumers drain; all of them end up blocked in Fetch
-	deadline := time.Now().Add(4 * time.Second)
+	if cfg.consumers == 0 {
+		return drain()
+	}
+	// consumers drain; those that loop end up blocked in Fetch, one-shot consumers exit
+	deadline := time.Now().Add(2500 * time.Millisecond)
 	stable := 0
 	last := -1
 	for {
 		mu.Lock()
 		n := len(log)
 		mu.Unlock()
-		quiet := atomic.LoadInt64(&inFetch) == int64(cfg.consumers)
+		run := atomic.LoadInt64(&running)
+		quiet := atomic.LoadInt64(&inFetch) == run
 		empty := true
 		if havePeek {
 			empty = pk.len() == 0
+		}
+		if run == 0 {
+			return drain()
 		}
 		if quiet && empty && n == last {
 			stable++
@@ -401,7 +420,7 @@ func runStress(cfg stressCfg) (hist []hop, er string, fail string, detail string
 		if time.Now().After(deadline) {
 			if havePeek && !empty {
 				return snapshot(&mu, &log), er, "lost-wakeup",
-					fmt.Sprintf("%d directories stay pending while all %d consumers sit in Fetch", pk.len(), cfg.consumers), resnap
+					fmt.Sprintf("%d directories stay pending while %d consumers sit in Fetch", pk.len(), run), resnap
 			}
 			return snapshot(&mu, &log), er, "", "", resnap
 		}
@@ -585,6 +604,9 @@ func genStress(r *vh.Rand, seed uint64, idx int, procs int) stressCfg {
 	default:
 		cfg.producers, cfg.consumers, cfg.reportsPerProd = 2+r.Intn(4), 2+r.Intn(4), 2+r.Intn(6)
 	}
+	if r.Chance(50) {
+		cfg.fetchLimit = 1 + r.Intn(2) // one-shot consumers: a consumer left asleep cannot be covered up by another
+	}
 	return cfg
 }
 
@@ -609,7 +631,7 @@ func childSeq(f *vh.Flags, o *vh.Out) {
 
 func childStress(f *vh.Flags, o *vh.Out) {
 	r := vh.NewRand(f.Seed ^ uint64(*procs)*7919)
-	for i := 0; i < f.N; i++ {
+	for i := 0; i < f.N && o.Stats["stress_failed"] < 3; i++ {
 		stressCase(genStress(r.Fork(i), f.Seed^uint64(*procs)*7919, i, *procs), o)
 	}
 }
@@ -759,7 +781,7 @@ func replay(f *vh.Flags, o *vh.Out) {
 		b, _ := vh.UnHex(fs[1])
 		pdirCase(string(b), o)
 	case "c40stress":
-		if len(fs) < 7 {
+		if len(fs) < 8 {
 			return
 		}
 		seed, _ := strconv.ParseUint(fs[1], 10, 64)
@@ -769,6 +791,7 @@ func replay(f *vh.Flags, o *vh.Out) {
 		cfg.consumers, _ = strconv.Atoi(fs[4])
 		cfg.reportsPerProd, _ = strconv.Atoi(fs[5])
 		cfg.procs, _ = strconv.Atoi(fs[6])
+		cfg.fetchLimit, _ = strconv.Atoi(fs[7])
 		for i := 0; i < 300 && o.Stats["oracle_fail"] == 0; i++ {
 			stressCase(cfg, o)
 		}
